@@ -1,12 +1,13 @@
 (* Single executable entry point of the model: one s-expression line in, one line out.
    Used both by the extracted OCaml driver and by vm_compute inside Coq. *)
 From Coq Require Import List Ascii String ZArith.
-From PV Require Import Base.Sx Model.Levels.
+From PV Require Import Base.Sx Model.Levels Model.AddAtom.
 Import ListNotations.
 
 Definition dispatch (x : sx) : sx :=
   match x with
   | SL [SY "C07"; y] => run_levels y
+  | SL [SY "C08"; y] => run_addatom y
   | _ => SY "unknown-entry"
   end%string.
 
